@@ -91,7 +91,7 @@ KfTag(k) == IF k \in DOMAIN gh.kf THEN "!" \o gh.kf[k] ELSE ""
 \*      is not yet in the collision table) as superseded and drops it.
 KfTagR(k, afteropen, aftergc, res) ==
   IF k \in DOMAIN gh.kf THEN "!" \o gh.kf[k]
-  ELSE IF Colliding(k) /\ kv[k].ver > 0 /\ aftergc THEN "!F18"
+  \* (F18 is marked by the specification at the step where the pass drops the key's current record: gh.kf above)
   \* (F8a needs that NO key of the group was in the collision table at that restart: a detected group is durable state
   \*  and must protect its members)
   ELSE IF Colliding(k) /\ kv[k].ver > 0 /\ afteropen /\ res = "miss"
@@ -125,8 +125,11 @@ Checks(o) ==
         IN IF e.res # "ok" \/ e.second \/ e.concurrent THEN {}
            ELSE IF /\ \A f \in out : f.same /\ f.after >= f.before
                    /\ Cardinality(grown) <= 1 /\ (\A f \in grown : f.c < e.rb)
-                   /\ (\A f \in F : f.c >= e.head => (f.same /\ f.after = f.before))
-                   /\ (\A i \in 1..Len(e.created) : e.created[i] < e.head /\ e.created[i] <= e.re)
+                   \* the file receiving appends keeps its old bytes; it may only grow by the pass's own flush of the
+                   \* appends still buffered for it (flushBuffered, fix F15), i.e. to the size the specification's flush gives
+                   /\ (\A f \in F : f.c >= e.head => (f.same /\ (f.after = f.before \/ (f.c \in Chunks /\ f.after = Len(disk.data[f.c])))))
+                   /\ (\A i \in 1..Len(e.created) : \/ (e.created[i] < e.head /\ e.created[i] <= e.re)
+                                                      \/ (e.created[i] = e.head /\ e.head \in Chunks /\ Len(disk.data[e.head]) > 0))
                 THEN {} ELSE {<<sid, e.n, "C17_Frame">>})
        \cup
        (IF e.second /\ e.released # 0 THEN {<<sid, e.n, "C18_Idempotent">>} ELSE {})
@@ -254,7 +257,8 @@ TrIncr ==
   /\ IsEv("Incr") /\ ~OthersBusy /\ Adv /\ sid' = sid
   /\ IF up
        THEN /\ kv' = [kv EXCEPT ![Ev.k] = KvAfterIncr(kv[Ev.k], Ev)]
-            /\ kvTreeOnly' = kvTreeOnly \ {Ev.k} /\ kvCtab' = kvCtab
+            \* a refused incr (non-numeric old value) writes nothing: a tree-only version stays tree-only
+            /\ kvTreeOnly' = (IF KvAfterIncr(kv[Ev.k], Ev) = kv[Ev.k] THEN kvTreeOnly ELSE kvTreeOnly \ {Ev.k}) /\ kvCtab' = kvCtab
             /\ I_Begin("c1", Ev.k, Ev.d, Ev.vh) /\ Settle /\ obs' = [e |-> Ev, pre |-> kv[Ev.k], aux |-> NoAux]
        ELSE KvSame /\ Stuck("incr-while-down")
 
@@ -346,6 +350,14 @@ TrGCAt ==
   /\ IsEv("GCAt") /\ ~OthersBusy /\ AtPoint(Ev) /\ Adv /\ sid' = sid /\ KvSame
   /\ Settle /\ obs' = NoObs /\ UNCHANGED vars
 
+\* CancelGC while the pass is parked at a hook point (src = -1: no pass was registered, nothing happens)
+TrCancel ==
+  /\ IsEv("Cancel") /\ ~OthersBusy /\ Adv /\ sid' = sid /\ KvSame
+  /\ IF Ev.src >= 0 /\ gc.reg /\ ~gc.cancel
+       THEN G_Cancel /\ Settle /\ obs' = NoObs
+       ELSE IF Ev.src < 0 \/ gc.cancel THEN Settle /\ obs' = NoObs /\ UNCHANGED vars
+       ELSE Stuck("cancel-without-pass")
+
 \* the pass has returned
 TrGC ==
   /\ IsEv("GC") /\ Quiet /\ Adv /\ sid' = sid /\ KvSame
@@ -370,7 +382,7 @@ TrEnd ==
 \* an event this specification has no action for: skip it, note it
 TrOther ==
   /\ l <= Len(Trace) /\ Quiet /\ Adv /\ sid' = sid /\ KvSame
-  /\ Trace[l].a \notin {"Reset", "Set", "Get", "Incr", "Flush", "RotFlush", "Close", "Open", "ReadAll", "End", "GC", "GCStart", "GCRefused", "GCAt", "Scan", "Recovered"}
+  /\ Trace[l].a \notin {"Reset", "Set", "Get", "Incr", "Flush", "RotFlush", "Close", "Open", "ReadAll", "End", "GC", "GCStart", "GCRefused", "GCAt", "Scan", "Recovered", "Cancel"}
   /\ Stuck("unknown-event")
 
 \* unlogged micro-steps: every process except GC runs its operation to completion; the GC pass advances
@@ -388,7 +400,7 @@ TraceInit ==
            splitCap |-> 2, checkVHash |-> FALSE, dumpEager |-> FALSE, bodyMaxBlk |-> 1, mut |-> {}])
 
 TraceNext == TrReset \/ TrSet \/ TrGet \/ TrIncr \/ TrFlush \/ TrRotFlush \/ TrClose \/ TrOpen \/ TrGCStart \/ TrGCRefused
-             \/ TrGCAt \/ TrGC \/ TrScan \/ TrRecovered
+             \/ TrGCAt \/ TrCancel \/ TrGC \/ TrScan \/ TrRecovered
              \/ TrReadAll \/ TrEnd \/ TrOther \/ Silent
 
 TraceSpec == TraceInit /\ [][TraceNext]_<<vars, tvars>>
